@@ -491,16 +491,49 @@ def update (c u : Cfg) : Cfg :=
 
 end Cfg
 
+/-- the result of an item read: `None` (statements), a scalar value, or a nested container object -/
+inductive CRes | unit | val (v : Nat) | cont
+deriving DecidableEq, Repr
+
+namespace Cfg
+
+/-- what is stored under the full path `q` -/
+def lookup (c : Cfg) (q : List Nat) : Option CRes :=
+  match odGet c.leaves q with
+  | some v => some (.val v)
+  | none => if (odGet c.dicts q).isSome then some .cont else none
+
+/-- everything stored at or below `q` is gone -/
+def removeUnder (c : Cfg) (q : List Nat) : Cfg :=
+  { dicts := c.dicts.filter (fun d => !(q.isPrefixOf d.1)),
+    leaves := c.leaves.filter (fun x => !(q.isPrefixOf x.1)) }
+
+/-- the effect on `c` of `del obj[k]` where `obj` is the container with identity `l` -/
+def delLoc (l k : Nat) (c : Cfg) : Cfg :=
+  (c.dicts.filter (fun d => d.2 = l)).foldl (fun acc d => acc.removeUnder (d.1 ++ [k])) c
+
+/-- number of entries directly below the container at `p` (`len(obj)`) -/
+def childCount (c : Cfg) (p : List Nat) : Nat :=
+  ((c.dicts.map Prod.fst ++ c.leaves.map Prod.fst).filter
+    (fun q => q.length == p.length + 1 && p.isPrefixOf q)).length
+
+end Cfg
+
 structure CWorld where
   next : Nat
   cfgs : List Cfg          -- number 0 is `_BASECONFIG`
+  syspath : List Nat := [] -- `sys.path` (value codes); only `set_wd` touches it
 
 inductive COp
   | new                                      -- `Config()`
   | fromDict (u : Nat)                       -- `Config.from_dict(cfgs[u])`
   | set (j : Nat) (path : List Nat) (k v : Nat)   -- `cfgs[j][p1]..[pn][k] = v`
+  | del (j : Nat) (path : List Nat) (k : Nat)     -- `del cfgs[j][p1]..[pn][k]` (also `.pop(k)`)
+  | get (j : Nat) (path : List Nat) (k : Nat)     -- `cfgs[j][p1]..[pn][k]`
 
-inductive CErr | keyError | typeError | badTarget
+/-- Python exceptions of the configuration code; `ext c` = the exception (class code `c`) an
+external function (os.path, astropy) raised -/
+inductive CErr | keyError | typeError | badTarget | ext (code : Nat)
 deriving DecidableEq, Repr
 
 /-- where `cfg[p1]..[pn]` ends: identity of that dict, KeyError if absent, TypeError for a scalar -/
@@ -509,6 +542,14 @@ def navigate (c : Cfg) (path : List Nat) : Except CErr Nat :=
   | some l => .ok l
   | none => if (odGet c.leaves path).isSome then .error .typeError else .error .keyError
 
+/-- `cfg[p1]..[pn][k]` as a function of the configuration alone -/
+def cget (c : Cfg) (path : List Nat) (k : Nat) : Except CErr CRes :=
+  match navigate c path with
+  | .error e => .error e
+  | .ok _ => match c.lookup (path ++ [k]) with
+      | none => .error .keyError
+      | some r => .ok r
+
 /-- `Config.__init__`: `dict.__init__(self, copy.deepcopy(_BASECONFIG))` — the top level dict is
 the Config itself (a new object), the nested dicts are those of the deep copy. -/
 def newCfg (w : CWorld) : Option (Cfg × Nat) :=
@@ -516,38 +557,195 @@ def newCfg (w : CWorld) : Option (Cfg × Nat) :=
   | none => none
   | some base => some (base.deepCopy w.next, w.next + base.dicts.length)
 
-def cstep (w : CWorld) : COp → CWorld × Except CErr Unit
+def cstep (w : CWorld) : COp → CWorld × Except CErr CRes
   | .new => match newCfg w with
       | none => (w, .error .badTarget)
-      | some (c, n) => ({ next := n, cfgs := w.cfgs ++ [c] }, .ok ())
+      | some (c, n) => ({ w with next := n, cfgs := w.cfgs ++ [c] }, .ok .unit)
   | .fromDict u => match newCfg w, w.cfgs[u]? with
       | some (c, n), some ud =>
-          ({ next := n + ud.dicts.length, cfgs := w.cfgs ++ [c.update (ud.deepCopy n)] }, .ok ())
+          ({ w with next := n + ud.dicts.length, cfgs := w.cfgs ++ [c.update (ud.deepCopy n)] }, .ok .unit)
       | _, _ => (w, .error .badTarget)
   | .set j path k v => match w.cfgs[j]? with
       | none => (w, .error .badTarget)
       | some c => match navigate c path with
           | .error e => (w, .error e)
-          | .ok l => ({ w with cfgs := w.cfgs.map (Cfg.writeLoc l k v) }, .ok ())
+          | .ok l => ({ w with cfgs := w.cfgs.map (Cfg.writeLoc l k v) }, .ok .unit)
+  | .del j path k => match w.cfgs[j]? with
+      | none => (w, .error .badTarget)
+      | some c => match navigate c path with
+          | .error e => (w, .error e)
+          | .ok l => match c.lookup (path ++ [k]) with
+              | none => (w, .error .keyError)
+              | some r => ({ w with cfgs := w.cfgs.map (Cfg.delLoc l k) }, .ok r)
+  | .get j path k => match w.cfgs[j]? with
+      | none => (w, .error .badTarget)
+      | some c => (w, cget c path k)
 
 /-- the pinned `from_dict`: `cfg.update(user_dict)` without a copy -/
-def cstepOld (w : CWorld) : COp → CWorld × Except CErr Unit
+def cstepOld (w : CWorld) : COp → CWorld × Except CErr CRes
   | .fromDict u => match newCfg w, w.cfgs[u]? with
-      | some (c, n), some ud => ({ next := n, cfgs := w.cfgs ++ [c.update ud] }, .ok ())
+      | some (c, n), some ud => ({ w with next := n, cfgs := w.cfgs ++ [c.update ud] }, .ok .unit)
       | _, _ => (w, .error .badTarget)
   | op => cstep w op
 
 /-- specification: a write through configuration `j` changes configuration `j` only -/
-def cspecStep (w : CWorld) : COp → CWorld × Except CErr Unit
+def cspecStep (w : CWorld) : COp → CWorld × Except CErr CRes
   | .set j path k v => match w.cfgs[j]? with
       | none => (w, .error .badTarget)
       | some c => match navigate c path with
           | .error e => (w, .error e)
-          | .ok l => ({ w with cfgs := w.cfgs.set j (c.writeLoc l k v) }, .ok ())
+          | .ok l => ({ w with cfgs := w.cfgs.set j (c.writeLoc l k v) }, .ok .unit)
+  | .del j path k => match w.cfgs[j]? with
+      | none => (w, .error .badTarget)
+      | some c => match navigate c path with
+          | .error e => (w, .error e)
+          | .ok l => match c.lookup (path ++ [k]) with
+              | none => (w, .error .keyError)
+              | some r => ({ w with cfgs := w.cfgs.set j (c.delLoc l k) }, .ok r)
   | op => cstep w op
 
-def crun (stepf : CWorld → COp → CWorld × Except CErr Unit) (w : CWorld) : List COp → CWorld
+def crun (stepf : CWorld → COp → CWorld × Except CErr CRes) (w : CWorld) : List COp → CWorld
   | [] => w
   | op :: ops => crun stepf (stepf w op).1 ops
+
+/-! ### the methods of `Config`, line by line -/
+
+/-- the key codes the methods use -/
+structure Keys where
+  debugging : Nat
+  enableTracing : Nat
+  multiproc : Nat
+  ncpu : Nat
+  units : Nat
+  internal : Nat
+  angle : Nat
+  energy : Nat
+  length : Nat
+  time : Nat
+  project : Nat
+  workingDirectory : Nat
+
+/-- the external functions the methods call, on value codes: a value or the class code of the
+exception they raise -/
+structure Ext where
+  abspath : Nat → Except Nat Nat          -- `os.path.abspath(v)`
+  conv : Nat → Nat → Except Nat Nat       -- `time_unit.to(internal_time_unit)`
+  join : Nat → Nat → Except Nat Nat       -- `os.path.join(wd, filename)`
+  vTrue : Nat
+  vFalse : Nat
+
+/-- a unit argument of `set_internal_units`: `None`, an `astropy.units.UnitBase` instance, anything else -/
+inductive UnitArg | absent | ok (v : Nat) | bad
+
+inductive Method
+  | enableTracing | disableTracing | setEnableTracing (flag : Nat) | setNcpu (v : Nat)
+  | setInternalUnits (angle energy length time : UnitArg)
+  | setWd (path : Option Nat)
+  | isTracingEnabled | getWd | toInternalTimeUnit (u : Nat) | wdFilename (f : Nat)
+
+/-- a straight-line method body: item writes, `none` = `raise TypeError` at this point -/
+def runScript (stepf : CWorld → COp → CWorld × Except CErr CRes) (w : CWorld) :
+    List (Option COp) → CWorld × Except CErr CRes
+  | [] => (w, .ok .unit)
+  | none :: _ => (w, .error .typeError)
+  | some op :: t => match stepf w op with
+      | (w', .ok _) => runScript stepf w' t
+      | (w', .error e) => (w', .error e)
+
+/-- `if x_unit is not None: if not isinstance(x_unit, UnitBase): raise TypeError; self[...][x] = x_unit` -/
+def unitLine (K : Keys) (j : Nat) (a : UnitArg) (key : Nat) : List (Option COp) :=
+  match a with
+  | .absent => []
+  | .bad => [none]
+  | .ok v => [some (.set j [K.units, K.internal] key v)]
+
+def liftExt : Except Nat Nat → Except CErr CRes
+  | .ok v => .ok (.val v)
+  | .error c => .error (.ext c)
+
+/-- apply an external function to a value that was read (a container is not a valid argument) -/
+def onVal (r : CRes) (f : Nat → Except Nat Nat) : Except CErr CRes :=
+  match r with
+  | .val v => liftExt (f v)
+  | _ => .error .typeError
+
+def removeFirst (x : Nat) : List Nat → List Nat
+  | [] => []
+  | y :: t => if y = x then t else y :: removeFirst x t
+
+/-- one method call through configuration `j` -/
+def cmethod (stepf : CWorld → COp → CWorld × Except CErr CRes) (K : Keys) (E : Ext) (w : CWorld) (j : Nat) :
+    Method → CWorld × Except CErr CRes
+  | .enableTracing => runScript stepf w [some (.set j [K.debugging] K.enableTracing E.vTrue)]
+  | .disableTracing => runScript stepf w [some (.set j [K.debugging] K.enableTracing E.vFalse)]
+  | .setEnableTracing flag => runScript stepf w [some (.set j [K.debugging] K.enableTracing flag)]
+  | .setNcpu v => runScript stepf w [some (.set j [K.multiproc] K.ncpu v)]
+  | .setInternalUnits a e l t =>
+      runScript stepf w (unitLine K j a K.angle ++ unitLine K j e K.energy ++ unitLine K j l K.length ++
+        unitLine K j t K.time)
+  | .setWd path => match w.cfgs[j]? with
+      | none => (w, .error .badTarget)
+      | some c => match cget c [K.project] K.workingDirectory with     -- the reads of the first two statements
+          | .error e => (w, .error e)
+          | .ok cur =>
+              -- `if cur in sys.path: sys.path.remove(cur)`
+              let sp := match cur with | .val v => removeFirst v w.syspath | _ => w.syspath
+              let w1 := { w with syspath := sp }
+              -- `wd = os.path.abspath(path)`
+              match onVal (match path with | some p => .val p | none => cur) E.abspath with
+              | .error e => (w1, .error e)
+              | .ok (.val wd) =>
+                  match stepf w1 (.set j [K.project] K.workingDirectory wd) with
+                  | (w2, .ok _) => ({ w2 with syspath := wd :: w2.syspath }, .ok (.val wd))
+                  | (w2, .error e) => (w2, .error e)
+              | .ok _ => (w1, .error .typeError)
+  | .isTracingEnabled => match w.cfgs[j]? with
+      | none => (w, .error .badTarget)
+      | some c => (w, cget c [K.debugging] K.enableTracing)
+  | .getWd => match w.cfgs[j]? with
+      | none => (w, .error .badTarget)
+      | some c => match cget c [K.project] K.workingDirectory with
+          | .error e => (w, .error e)
+          | .ok r => (w, onVal r E.abspath)
+  | .toInternalTimeUnit u => match w.cfgs[j]? with
+      | none => (w, .error .badTarget)
+      | some c => match cget c [K.units, K.internal] K.time with
+          | .error e => (w, .error e)
+          | .ok r => (w, onVal r (E.conv u))
+  | .wdFilename f => match w.cfgs[j]? with
+      | none => (w, .error .badTarget)
+      | some c => match cget c [K.project] K.workingDirectory with
+          | .error e => (w, .error e)
+          | .ok r => match onVal r E.abspath with
+              | .error e => (w, .error e)
+              | .ok (.val wd) => (w, liftExt (E.join wd f))
+              | .ok _ => (w, .error .typeError)
+
+/-- a call on the configuration world: a primitive operation or a method -/
+inductive CCall | op (o : COp) | meth (j : Nat) (m : Method)
+
+def ccall (stepf : CWorld → COp → CWorld × Except CErr CRes) (K : Keys) (E : Ext) (w : CWorld) :
+    CCall → CWorld × Except CErr CRes
+  | .op o => stepf w o
+  | .meth j m => cmethod stepf K E w j m
+
+def crunCalls (stepf : CWorld → COp → CWorld × Except CErr CRes) (K : Keys) (E : Ext) (w : CWorld) :
+    List CCall → CWorld
+  | [] => w
+  | c :: cs => crunCalls stepf K E (ccall stepf K E w c).1 cs
+
+/-! ### negative model: a class-level memo of the conversion factors keyed by the requested unit only
+(seeded change C20_m3b) — shared by all instances, cleared by `set_internal_units(time_unit=…)` -/
+
+/-- `to_internal_time_unit` with the memo: `(memo, result)` -/
+def memoTime (E : Ext) (memo : List (Nat × Nat)) (c : Cfg) (K : Keys) (u : Nat) :
+    List (Nat × Nat) × Except CErr CRes :=
+  match odGet memo u with
+  | some f => (memo, .ok (.val f))
+  | none => match cget c [K.units, K.internal] K.time with
+      | .error e => (memo, .error e)
+      | .ok r => match onVal r (E.conv u) with
+          | .ok (.val f) => (odSet memo u f, .ok (.val f))
+          | other => (memo, other)
 
 end Coll
